@@ -404,6 +404,13 @@ func (w *world) applyInner(e simEvent) error {
 		if !ok {
 			return fmt.Errorf("%w: timer %s of n%d has no virtual channel", errSimHarness, e.S, n.id)
 		}
+		// make the underlying timer really expire (its own channel is never read: the
+		// select reads the substituted channel), so that timer.Stop() reports "already
+		// fired" afterwards exactly as in production
+		t.timer.Reset(0)
+		for i := 0; len(t.timer.C) == 0 && i < 2000; i++ {
+			time.Sleep(50 * time.Microsecond)
+		}
 		chv.(chan time.Time) <- time.Now()
 		return n.stepLoop(nil)
 	case "F":
